@@ -4,6 +4,7 @@
    ---------------------------------------------------------  ---------------------------
    varpulis_core::value  float_eq, impl PartialEq for Value    float_eqb, value_eqb
    engine/evaluator.rs   cmp_int_float (exact helper)          cmp_int_float
+   engine/evaluator.rs   values_eq (numeric equality helper)   numeric_eqb
    engine/evaluator.rs   eval_expr_with_functions              eval  (Ident, literals, Binary, Unary)
         Expr::Binary arms  BinOp::{Lt,Le,Gt,Ge}                eval_cmp FExpr  (through Gen_EvalArms.eval_arms)
         BinOp::{Eq,NotEq,And,Or}, UnaryOp::{Not,Neg}           eval_bin / eval
@@ -75,6 +76,21 @@ Definition opt_test (r : rel) (o : option comparison) : bool :=
 (* Rust's `a r b` on two f64 *)
 Definition f_rel (r : rel) (a b : f64) : bool := opt_test r (fcmp a b).
 
+(* evaluator.rs values_eq: Value equality, except Int vs Float = same number *)
+Definition numeric_eqb (l r : value) : bool :=
+  match l, r with
+  | VInt i, VFloat f | VFloat f, VInt i =>
+      match cmp_int_float i f with Some Eq => true | _ => false end
+  | _, _ => value_eqb l r
+  end.
+
+Definition eq_by (h : eqhow) (l r : value) : option bool :=
+  match h with
+  | EQValue => Some (value_eqb l r)
+  | EQNumeric => Some (numeric_eqb l r)
+  | EQUnknown => None
+  end.
+
 (* ------------------------------------------ the two evaluators' arm tables *)
 Definition apply_combine (c : combine) (l r : value) : option bool :=
   match c, l, r with
@@ -94,12 +110,8 @@ Definition find_arm (tbl : list arm) (f : fn) (o : cop) (lt rt : vty) : option a
 (* result of `l o r` in evaluator f, given the arm table; None = "no value" *)
 Definition eval_cmp_tbl (tbl : list arm) (f : fn) (o : cop) (l r : value) : option value :=
   match o with
-  | OEq =>
-      if (match f with FExpr => expr_eq_value_eq | FBinop => binop_eq_value_eq end)
-      then Some (VBool (value_eqb l r)) else None
-  | ONotEq =>
-      if (match f with FExpr => expr_ne_value_ne | FBinop => binop_ne_value_ne end)
-      then Some (VBool (negb (value_eqb l r))) else None
+  | OEq => option_map VBool (eq_by (match f with FExpr => expr_eq_how | FBinop => binop_eq_how end) l r)
+  | ONotEq => option_map (fun b => VBool (negb b)) (eq_by (match f with FExpr => expr_ne_how | FBinop => binop_ne_how end) l r)
   | _ =>
       match find_arm tbl f o (ty_of l) (ty_of r) with
       | Some a => match apply_combine (a_how a) l r with Some b => Some (VBool b) | None => None end
@@ -138,6 +150,7 @@ Definition eps_close (a b : f64) : bool := f_lt (f_abs (f_sub a b)) f_epsilon.
 Definition values_equal_body (bd : vebody) (l r : value) : bool :=
   match bd with
   | VEValueEqAll => value_eqb l r
+  | VENumericAll => numeric_eqb l r
   | VEArms tbl =>
       match ve_find tbl (ty_of l) (ty_of r), l, r with
       | Some VEDirectEq, VInt a, VInt b => Z.eqb a b
